@@ -582,6 +582,59 @@ def r08_5(prog, rep):
         rep.broken_("rule=R08.5 expected >=2 modular month reductions, found %d" % nmod)
 
 
+def r08_7(prog, rep):
+    """The year and the month of one date are read off the same state.  Where a function assembles a date record and both its year
+    and its month field are computed from one stepped index (a month slot that is bumped when the day spills over), no step of that
+    index may lie between the two assignments: the year would belong to the slot before the bump, the month to the slot after it."""
+    from ..q import forward_scan
+    from ..facts import step_of
+    rid = "R08.7"
+    n = 0
+    for f in prog.all_fns():
+        if not f.cfg or f.file not in ("instant.c", "tzob.c", "echsd.c", "dt-strpf.c", "scale.c", "evrrul.c", "instant.h"):
+            continue
+        cfg = f.cfg
+        asg = {}
+        for b, i, x, line in cfg.all_elems():
+            if not isinstance(x, dict):
+                continue
+            for l, kind, nn in writes(x):
+                l_ = strip_casts(l)
+                if kind == "assign" and l_.get("k") == "mem" and l_["f"] in ("y", "m") and nn.get("k") == "bin" and nn["op"] == "=":
+                    rd = {q["n"] for q in walk(cfg.resolve(nn["r"])) if q.get("k") == "ref" and q.get("dk") in ("local", "param")}
+                    asg.setdefault(lv(l_["b"]), []).append((b, i, l_["f"], rd, nn.get("line", line)))
+        for base, lst in asg.items():
+            for a in lst:
+                for c in lst:
+                    if a[2] == c[2] or a is c:
+                        continue
+                    common = a[3] & c[3]
+                    if not common:
+                        continue
+
+                    def visit(b_, i_, x_, _c=c, _common=common):
+                        if (b_, i_) == (_c[0], _c[1]):
+                            return "stop"
+                        if isinstance(x_, dict) and any(lv(l2) in _common and step_of(k2, n2) is not None for l2, k2, n2 in writes(x_)):
+                            return "hit"
+                        return None
+                    hits, _ = forward_scan(cfg, (a[0], a[1]), visit)
+                    hits = [h for h in hits if (c[0] == h[0] and c[1] > h[1]) or c[0] in cfg.reach_from(h[0])]
+                    if (b, i) == (a[0], a[1]):
+                        pass
+                    n += 1
+                    key = "%s/%s.%s-then-%s(%s)" % (f.name, base, a[2], c[2], ",".join(sorted(common)))
+                    if hits:
+                        hl = cfg.blocks[hits[0][0]].elems[hits[0][1]].get("line")
+                        rep.fail(rid, key, f.loc(a[4]), "%s.%s is computed from %s, which is stepped (line %s) before %s.%s is computed from it: year and month "
+                                 "of one date come from different states of the index (wrong year when the step crosses the year's boundary slot)" % (
+                                     base, a[2], "/".join(sorted(common)), hl, base, c[2]))
+                    else:
+                        rep.ok(rid, key, f.loc(a[4]), "%s.%s and %s.%s read the same state of %s" % (base, a[2], base, c[2], "/".join(sorted(common))))
+    if n < 1:
+        rep.broken_("rule=R08.7 expected >=1 (year, month) pair computed from a common index, found %d" % n)
+
+
 def run(prog, rep, tier, snap):
     rep.rule("R08.1", "64-bit evaluation of millisecond quantities", 6)
     rep.call(r08_1, prog, rep)
@@ -595,4 +648,9 @@ def run(prog, rep, tier, snap):
     rep.call(r08_5, prog, rep)
     rep.rule("R08.6", "a borrow of a whole time unit is paired with its carry", 1)
     rep.call(r08_6, prog, rep)
+    rep.rule("R08.7", "year and month of one date are computed from the same state of a stepped index", 1)
+    rep.call(r08_7, prog, rep)
+    from ..rules import state
+    rep.rule("R08.8", "the time conversions carry no state from one call to the next", 1)
+    rep.call(state.no_carried_state, prog, rep, "R08.8", "time")
 READY = True
